@@ -573,7 +573,7 @@ pub fn c10_case(data: &[u8]) -> c10::Case {
         let len = |d: &mut D| match d.pick(8) { 0 | 1 => d.range(0, 2), 2..=5 => d.range(3, 59), _ => d.range(60, 399) } as u16;
         let it = match d.pick(14) {
             0..=4 => c10::Item::Complete { lab: lab(d, false, true), len: len(d), kind: [0u8, 0, 0, 0, 1, 1, 2, 2, 3, 4][d.pick(10)] },
-            5..=7 => c10::Item::Start { id: d.range(0, 5) as u8, lab: lab(d, false, true), len: d.range(4, 399) as u16, first_payload: d.range(0, 39) as u8, ext: d.bool() },
+            5..=7 => c10::Item::Start { id: d.range(0, 5) as u8, lab: lab(d, false, true), len: if d.pick(3) == 0 { 0 } else { d.range(4, 399) as u16 }, first_payload: d.range(0, 39) as u8, ext: d.bool() },
             8..=12 => c10::Item::Cont { k: d.u16(), n: if d.pick(3) == 0 { d.range(30, 499) as u16 } else { d.range(0, 29) as u16 }, corrupt: d.pick(7) == 0 },
             _ => c10::Item::Orphan { id: d.range(0, 5) as u8, end: d.bool() },
         };
@@ -610,6 +610,7 @@ pub fn c13_case(data: &[u8]) -> c13::Case {
         cont_buf: d.range(7, 600) as u16,
         storage_extra: if d.pick(3) == 0 { d.range(1, 499) as u16 } else { 0 },
         mgr_mask: match d.pick(6) { 0..=2 => u32::MAX, 3 | 4 => d.u32(), _ => 0 },
+        prime_same_label: d.pick(3) == 0,
     }
 }
 
